@@ -6,7 +6,7 @@ from vlib.framework import Corr
 from harness import iolib as IO
 
 META = {
-    "drivers": ["iocheck"],
+    "drivers": ["iocheck", "impcheck"],
     "rule": "case = (stack descriptor, content digest, build config); non-trivial when some layer has a non-default "
             "(non-zero) configuration or the array is non-empty",
     "trusted_base": ["harness token reader/printer (IOX<>::make/show in harness/cpp/io_lib.hpp): builds owning data through the public "
@@ -190,8 +190,19 @@ def evaluate(ctx, stacks, cases, cfgs):
 
 
 def run(ctx):
-    stacks, cases = gen(ctx)
-    return evaluate(ctx, stacks, cases, ["dbg", "rel"])
+    # the tie through translation (DESIGN.md §11.6): every layer's write_binary / read_binary as written is the script the theorems
+    # `Covfie.IO.dump_* / load_*` interpret; a layer whose members changed brings in the thorough tier's stacks
+    from harness import translib as T
+    tie = T.Tie(ctx, list(T.IOL))
+    if tie.changed() and ctx.quick:
+        class Deep:
+            quick, seed, tier, work, replay, prop = False, ctx.seed, ctx.tier, ctx.work, ctx.replay, ctx.prop
+        stacks, cases = gen(Deep)
+    else:
+        stacks, cases = gen(ctx)
+    corr = evaluate(ctx, stacks, cases, ["dbg", "rel"])
+    tie.merge(corr)
+    return corr
 
 
 def replay(ctx):
